@@ -80,8 +80,12 @@ def mk_lanelet_network(spec):
 
 
 def mk_state(cls, st, t):
-    kw = {"time_step": t, "position": mk_pos(st["pos"]), "orientation": st.get("orient", 0.0),
-          "velocity": st.get("vel", 1.0)}
+    """orient / vel: a number, or [start, end] for an uncertain value (AngleInterval / Interval)."""
+    from commonroad.common.util import AngleInterval, Interval
+    o, v = st.get("orient", 0.0), st.get("vel", 1.0)
+    kw = {"time_step": t, "position": mk_pos(st["pos"]),
+          "orientation": AngleInterval(o[0], o[1]) if isinstance(o, list) else o,
+          "velocity": Interval(v[0], v[1]) if isinstance(v, list) else v}
     return cls(**kw)
 
 
